@@ -18,7 +18,7 @@ URLS = {
     "I": ["https://i.example/introspect", "https://i2.example/introspect"],
     "R": ["https://r.example/revoke", "http://r.example/revoke", "HTTPS://r2.example/revoke"],   # index 0 https, 1 http
 }
-SECRETS = ["bbb", "p:w ä", ""]
+SECRETS = ["bbb", "p:w ä", "", "eu:s3cret"]
 REDIRS = ["https://client/cb", "https://client/other?x=1"]
 
 
@@ -50,7 +50,8 @@ OPS19 = [(k, e) for e in "ATDIR" for k in ("set", "some", "none")] + [("secret",
 
 
 def line(ops):
-    return "CFG %s %s" % (C.tb("client id"), ";".join(ops) if ops else ".")
+    ids = ["client id", "app:eu", "a:b:c ä"]
+    return "CFG %s %s" % (C.tb(ids[sum(len(o) for o in ops) % 3]), ";".join(ops) if ops else ".")
 
 
 def gen(tier, rng):
